@@ -616,8 +616,28 @@ impl Scenario for C25 {
                 repr_seed: rng.next_u64(),
             };
         }
-        let (g, _) = gen_case_program(rng, thorough, true, true, true);
-        let flags = flags_word(rng);
+        // a quarter of the programs: heap reclamation switched on and the shapes that make it run
+        // (as in C04), so that the value-preserving restore is part of the totality check
+        let gc_mode = rng.chance(1, 4);
+        let (g, flags) = if gc_mode {
+            let mut cfg = prog::ProgCfg::swarm(rng);
+            cfg.families |= fam::GCSHAPES | fam::BIG | fam::APPLY;
+            if !thorough {
+                cfg.max_depth = cfg.max_depth.min(4);
+            }
+            if !rng.chance(1, 5) {
+                cfg.families &= !fam::BLS;
+            }
+            let flags = prog::random_flags(rng, true, true) | F_ENABLE_GC;
+            let mut g = prog::gen_program(rng, &cfg);
+            if !g.guard_cost_atoms.is_empty() {
+                prog::calibrate_guards(&mut g, flags);
+            }
+            (g, flags)
+        } else {
+            let (g, _) = gen_case_program(rng, thorough, true, true, true);
+            (g, flags_word(rng))
+        };
         let entropy = if rng.bool() { EntropyPlan::Zero } else { EntropyPlan::Prng(rng.next_u64()) };
         // finite budgets only: random programs may loop
         let big: u64 = 30_000_000;
